@@ -55,7 +55,7 @@ theorem fts_dans : ((ftOrder f).map (ftReadOf o f names)).flatMap (·.dans) = (d
 
 /-- The state of the reader when it comes to the `grid_mapping` attribute. -/
 def gmInit (o : Opts) (f : MField) (names : List (Slot × String)) : GMSt :=
-  ⟨((ftOrder f).map (ftReadOf o f names)).map (fun x => (x.coord, x.ref)), [], []⟩
+  ⟨((ftOrder f).map (ftReadOf o f names)).map (fun x => (x.coord, x.ref)), [], [], []⟩
 
 /-- The coordinate references and domain ancillaries read from the data variable. -/
 theorem readB_shape :
@@ -65,7 +65,8 @@ theorem readB_shape :
               (((dansOrder f).map (rdB o f names)).filterMap (·.con.ncvar))) (gmInit o f names)
          { dans := (dansOrder f).map (rdB o f names)
            refs := st.vcrs.map (·.2) ++ st.out
-           referenced := ((dansOrder f).map (rdB o f names)).flatMap danRefs ++ st.seen }) := by
+           referenced := ((dansOrder f).map (rdB o f names)).flatMap danRefs ++ st.seen ++ st.used
+           createdGM := st.seen }) := by
   unfold readB
   simp only
   rw [read_fts hwf hg, read_coords hwf hg, file_gm, fts_eq hwf, fts_dans hwf]
@@ -332,7 +333,7 @@ theorem readB_refs_multi (hlen : (gmOnly f).length ≠ 1) (hd : ∀ kr ∈ ftOnl
           (((dansOrder f).map (rdB o f names)).filterMap (·.con.ncvar))) st
         = { vcrs := st.vcrs
             out := st.out ++ l.map (imgGM names (fun g => sortKeys (g.2.coords.map (fun k => nameOf names (.con k)))))
-            seen := st.seen ++ l.map (fun g => nameOf names (.gm g.1)) } := by
+            seen := st.seen ++ l.map (fun g => nameOf names (.gm g.1)), used := st.used } := by
     intro l
     induction l with
     | nil => intro _ st _; simp
@@ -359,7 +360,7 @@ theorem readB_refs_multi (hlen : (gmOnly f).length ≠ 1) (hd : ∀ kr ∈ ftOnl
       · have := ih (fun x hx => hl x (List.mem_cons_of_mem _ hx))
           { vcrs := st.vcrs
             out := st.out ++ [rdGM (nameOf names (.gm g.1)) (gmVar names g) (sortKeys (g.2.coords.map (fun k => nameOf names (.con k))))]
-            seen := st.seen ++ [nameOf names (.gm g.1)] } hst
+            seen := st.seen ++ [nameOf names (.gm g.1)], used := st.used } hst
         unfold gmEntry at this
         rw [this]
         obtain ⟨hda, hpa⟩ := gmVar_attrs (names := names) hwf hgm
